@@ -430,6 +430,21 @@ def _s7_call_forms(program, res):
             res.fail_at("C13-S6", w, "function-form-bypasses-method",
                         f"`{unparse(c)[:70]}` builds the expression of f(x, …) directly, past the argument checks of the Term method f: round(a, 1) is accepted and SQLite computes "
                         f"ROUND(a) (1.0, -2.0, 1.0, 4.0 where Python and Pandas give 1.3, -2.3, 0.6, 4.4); a.round(1) is refused", c)
+    # the method's refusal (an assert on its arguments) is the check the function form is handed over for: a handler that swallows it without a
+    # condition lets around(x, y), trimstr(s, x, y), mapv(x, y) through to the plain form again
+    for t_ in [t_ for t_ in ast.walk(fn) if isinstance(t_, ast.Try) and any(isinstance(x, ast.Call) and isinstance(x.func, ast.Call) and dotted_name(x.func.func) == "getattr"
+                                                                            for st in t_.body for x in ast.walk(st))]:
+        for hd in t_.handlers:
+            names = {n_.id for n_ in ast.walk(hd.type) if isinstance(n_, ast.Name)} if hd.type is not None else {"*"}
+            if not ({"AssertionError", "Exception", "*"} & names):
+                continue
+            if any(isinstance(x, ast.Raise) for st in hd.body for x in ast.walk(st)):
+                res.ok("C13-S6", "a refusal of the Term method is passed on unless the form is one the plain function form is kept for")
+            else:
+                res.fail_at("C13-S6", w, "function-form-swallows-method-refusal",
+                            f"`except {unparse(hd.type) if hd.type is not None else ''}:` around the method call of the function form never raises again: every argument check of "
+                            f"a Term method (around(x, y) with a column as digits, trimstr(s, x, y), mapv(x, y)) is skipped and the plain form goes to the executors, "
+                            f"where Pandas raises and SQLite computes something", hd)
     comps = [c for c in ast.walk(fn) if isinstance(c, ast.ListComp) and isinstance(c.generators[0].iter, ast.Name) and c.generators[0].iter.id == "raw_args"]
     if not comps:
         raise AnalysisError("_r_walk_lark_tree: the walk over the call's arguments (raw_args) was not found")
